@@ -304,10 +304,11 @@ Proof.
   intros acc c. unfold brace_step. rewrite !eqb_lower; [reflexivity| | | |]; unfold LBRACE, RBRACE; lia.
 Qed.
 
-Lemma brace_count_lower : forall s acc, brace_count (to_lower s) acc = brace_count s acc.
+Lemma braces_ok_lower : forall s d, braces_ok (to_lower s) d = braces_ok s d.
 Proof.
-  induction s as [|c t IH]; intros acc; [reflexivity|].
-  cbn [to_lower map brace_count]. rewrite brace_step_lower. apply IH.
+  induction s as [|c t IH]; intros d; [reflexivity|].
+  cbn [to_lower map braces_ok]. rewrite !eqb_lower; [| | | |]; try (unfold LBRACE, RBRACE; lia).
+  destruct (c =? LBRACE); [apply IH|]. destruct (c =? RBRACE); [destruct d; [reflexivity|apply IH]|apply IH].
 Qed.
 
 Lemma skipn_to_lower : forall s n, skipn n (to_lower s) = to_lower (skipn n s).
@@ -317,7 +318,7 @@ Lemma firstn_to_lower : forall s n, firstn n (to_lower s) = to_lower (firstn n s
 Proof. intros s n. unfold to_lower. apply firstn_map. Qed.
 
 Lemma check_braces_lower : forall s p, check_braces (to_lower s) p = check_braces s p.
-Proof. intros s p. unfold check_braces. rewrite skipn_to_lower, brace_count_lower. reflexivity. Qed.
+Proof. intros s p. unfold check_braces. rewrite skipn_to_lower, braces_ok_lower. reflexivity. Qed.
 
 (* ------------------------------------------------------------------ what the search loop finds *)
 
@@ -538,14 +539,15 @@ Proof.
   rewrite (find_if_lower _ cb_is_lf). rewrite substr_to_lower, <- to_lower_app. apply IH.
 Qed.
 
-(* result of key_lookup with the value lower-cased and the registry entry dropped *)
+(* result of key_lookup with the value lower-cased *)
 Definition kl_lower (r : kl_result) : kl_result :=
-  match r with KL_found pos d sp _ => KL_found pos (to_lower d) sp RegNone | _ => r end.
-Definition kl_noreg (r : kl_result) : kl_result :=
-  match r with KL_found pos d sp _ => KL_found pos d sp RegNone | _ => r end.
+  match r with KL_found pos d sp reg => KL_found pos (to_lower d) sp reg | _ => r end.
+
+Lemma mk_reg_lower : forall d st, mk_reg (to_lower d) st = mk_reg d st.
+Proof. intros d st. destruct d as [|c t]; [reflexivity|]. unfold mk_reg. cbn [to_lower map length]. rewrite map_length. reflexivity. Qed.
 
 Lemma extract_value_lower : forall fuel conf key pos,
-  kl_noreg (extract_value fuel (to_lower conf) key pos) = kl_lower (extract_value fuel conf key pos).
+  extract_value fuel (to_lower conf) key pos = kl_lower (extract_value fuel conf key pos).
 Proof.
   intros fuel conf key pos. unfold extract_value.
   rewrite line_begin_of_lower, (find_if_lower _ cb_is_lf), to_lower_length, substr_to_lower, to_lower_idem.
@@ -560,19 +562,22 @@ Proof.
     destruct (brace_loop fuel conf line le br 1) as [line' le'| |]; cbn [bres_lower]; [|reflexivity|reflexivity].
     rewrite (find_if_lower _ cb_lbrace), (find_if_lower _ cb_not_ws), to_lower_length.
     rewrite (rfind_if_lower _ cb_rbrace), (rfind_if_lower _ cb_not_ws).
-    cbn [kl_noreg kl_lower]. f_equal.
-    match goal with |- (if ?b then _ else _) = to_lower (if ?b then _ else _) => destruct b end;
-      [apply substr_to_lower|reflexivity].
-  - cbn [kl_noreg kl_lower]. f_equal.
-    match goal with |- (if ?b then _ else _) = to_lower (if ?b then _ else _) => destruct b end;
-      [apply substr_to_lower|reflexivity].
+    cbn [kl_lower].
+    match goal with |- context [if ?b then substr (to_lower ?l) ?x ?y else []] =>
+      replace (if b then substr (to_lower l) x y else []) with (to_lower (if b then substr l x y else []))
+        by (destruct b; [symmetry; apply substr_to_lower|reflexivity]) end.
+    rewrite mk_reg_lower. reflexivity.
+  - cbn [kl_lower].
+    match goal with |- context [if ?b then substr (to_lower ?l) ?x ?y else []] =>
+      replace (if b then substr (to_lower l) x y else []) with (to_lower (if b then substr l x y else []))
+        by (destruct b; [symmetry; apply substr_to_lower|reflexivity]) end.
+    rewrite mk_reg_lower. reflexivity.
 Qed.
 
-(* key_lookup commutes with lower-casing the configuration: same keyword position, same resume position,
-   and the value of the lower-cased text is the lower-cased value (the registry entry, found by a case-sensitive
-   search for the value text, is left out of the statement) *)
+(* key_lookup commutes with lower-casing the configuration: same keyword position, same resume position, same
+   registered range, and the value of the lower-cased text is the lower-cased value *)
 Lemma key_lookup_lower : forall fuel conf key sp,
-  kl_noreg (key_lookup fuel (to_lower conf) key sp) = kl_lower (key_lookup fuel conf key sp).
+  key_lookup fuel (to_lower conf) key sp = kl_lower (key_lookup fuel conf key sp).
 Proof.
   intros fuel conf key sp. unfold key_lookup. rewrite to_lower_idem, search_lower.
   destruct (search fuel conf (to_lower conf) (to_lower key) _) as [|pos|]; [reflexivity| |reflexivity].
@@ -673,7 +678,7 @@ Qed.
 (* an occurrence of the keyword at p that key_lookup accepts, in declarative form *)
 Definition kw_occurrence (conf key : list Z) (p : nat) : Prop :=
   occurs (to_lower conf) (to_lower key) p /\ left_clear conf p /\ right_clear conf p (length key) /\
-  balanced (skipn p conf).
+  well_nested (skipn p conf).
 
 Lemma occurs_first_not_lf : forall conf k p,
   occurs (to_lower conf) k p -> k <> [] -> key_chars_ok k -> nth p conf 0 <> LF.
@@ -694,7 +699,7 @@ Proof.
   - intros [Ho Cd]. apply andb_true_iff in Cd. destruct Cd as [Cd C3]. apply andb_true_iff in Cd. destruct Cd as [C1 C2].
     pose proof (occurs_bound _ _ _ Ho Hk') as Hb. rewrite !to_lower_length in Hb.
     pose proof (occurs_first_not_lf conf (to_lower key) p Ho Hk' Hc) as Hp.
-    repeat split; [exact Ho|apply isolated_left_iff; assumption|apply isolated_right_iff; exact C2|apply check_braces_iff; exact C3].
+    split; [exact Ho|split; [apply isolated_left_iff; assumption|split; [apply isolated_right_iff; exact C2|apply check_braces_iff; exact C3]]].
   - intros [Ho [Hl [Hr Hbal]]]. split; [exact Ho|].
     pose proof (occurs_bound _ _ _ Ho Hk') as Hb. rewrite !to_lower_length in Hb.
     pose proof (occurs_first_not_lf conf (to_lower key) p Ho Hk' Hc) as Hp.
